@@ -1,7 +1,7 @@
 (* The request/response interface the extracted driver serves. *)
 From Coq Require Import ZArith NArith List Bool.
 From Coq Require Import Strings.Byte.
-Require Import Bytes Value Expr Codec Float Stream Syntax Sizeof Parse Build Hex Containers Lazy Compiled.
+Require Import Bytes Value Expr Codec Float Stream Syntax Sizeof Parse Build Hex Containers Lazy Compiled Ksy.
 Import ListNotations.
 
 Inductive request :=
@@ -14,7 +14,10 @@ Inductive request :=
 | RCops (ops : list cop)
 | RLazy (c : con) (kw : list (name * val)) (data : bytes) (start : N) (h : list nat)
 | RCParse (c : con) (kw : list (name * val)) (data : bytes) (start : N)
-| RCBuild (c : con) (obj : val) (kw : list (name * val)).
+| RCBuild (c : con) (obj : val) (kw : list (name * val))
+| RKsyEmit (c : con)
+| RKsyInterp (sch : kschema) (kw : list (name * val)) (data : bytes)
+| RKsyLayout (c : con) (kw : list (name * val)) (data : bytes).
 
 Inductive response :=
 | ROkParse (v : val) (pos : Z)
@@ -24,6 +27,8 @@ Inductive response :=
 | ROkBytes (b : bytes)
 | ROuts (o : list cout)
 | ROkLazy (pos : Z) (o : list lout)
+| ROkKsy (s : option kschema)
+| ROkFields (f : list fieldrec)
 | RErr (e : err) (p : option path).
 
 Definition run (r : request) : response :=
@@ -66,6 +71,17 @@ Definition run (r : request) : response :=
   | RCBuild c obj kw =>
       match cbuild_bytes c obj kw with
       | Ok (r, out) => ROkBuild r out
+      | Err e p => RErr e p
+      end
+  | RKsyEmit c => ROkKsy (ksy_emit c)
+  | RKsyInterp sch kw data =>
+      match ksy_interp sch kw data with
+      | Ok recs => ROkFields recs
+      | Err e p => RErr e p
+      end
+  | RKsyLayout c kw data =>
+      match ksy_layout c kw data with
+      | Ok recs => ROkFields recs
       | Err e p => RErr e p
       end
   end.
